@@ -571,6 +571,7 @@ func reuseSnappy(ks *kase) {
 		_, _ = w.Write(payload)
 		_ = w.Close()
 		valid := w.Bytes()
+		_ = w.Close() // Bytes() re-arms the writer (a goroutine of the s2 stream writer): release it, the writer is dropped here
 		st := reuseStep{kind: "valid", input: valid, note: desc}
 		if !nextKindValid(r, s) {
 			st = mangle(r, valid, 1, 9)
